@@ -462,6 +462,14 @@ def gen_cases(run, binary_unused=None):
         n = len(v)
         pos = lambda: None if rng.chance(0.2) else rng.randint(-3, n + 3)  # noqa
         add(("CSlice", v, pos(), pos(), rng.choice([None, None, 1, 1, 2, 3, 0, -1])))
+    # every (index, end, step) on one string / one array of 8, and on a string with multi-byte characters
+    grid = [None] + list(range(-3, 11))
+    for v in ("abcdefgh", [1, 2, 3, 4, 5, 6, 7, 8], "aé😀bcdz"):
+        pts = grid if (mul > 1 or v == "abcdefgh") else [None, -2, 0, 1, 3, 4, 6, 9]
+        for i in pts:
+            for e in pts:
+                for st in (None, 1, 2, 3, 5):
+                    add(("CSlice", v, i, e, st))
     for bad in (3, None, OBJ):
         add(("CSlice", bad, 0, 1, 1))
     for n in range(-1, 5):
